@@ -191,11 +191,12 @@ void PoolWakeState::wakeAll() {
   // blocks until timeout — causing slow shutdown.
   for (int32_t g = 0; g < numGroups_; ++g) {
     DISPENSO_VERIF_POINT("PwAllReadMask", this);
-    if (groupStates_[static_cast<size_t>(g)].sleepMask.load(std::memory_order_relaxed)) {
-      waiterFor(g * groupSize_).bumpAndWakeAll();
-    } else {
-      waiterFor(g * groupSize_).bump();
-    }
+    // The sleep mask cannot be used to skip the futex wake here: claimAndWakeOne() clears the
+    // mask bit of the sleeper it claims, but the kernel may release a different waiter of the
+    // group-shared futex, leaving the claimed thread parked with its bit already cleared.  A
+    // group whose mask reads 0 can therefore still have a parked thread, which would otherwise
+    // only notice the shutdown when its idle-sleep back-stop expires.
+    waiterFor(g * groupSize_).bumpAndWakeAll();
   }
 }
 
